@@ -10,6 +10,9 @@ struct ObsOpts {
     ObsOpts() : check_lookups(false), check_dims(false), read_data(true) {}
 };
 Node observe(const nix::File &f, const ObsOpts &opt, std::vector<std::string> *viol, uint64_t *getters);
+// modification times of every entity (path -> updated_at), gathered separately: they are not part of the document (no property
+// promises them across sessions) but a *rejected* call must not move them either (C08)
+void observe_updated(const nix::File &f, std::map<std::string, std::string> &out);
 std::string variant_str(const nix::Variant &v);
 std::string read_array_raw(const nix::DataArray &da, bool &ok);
 // observation of a single entity through a given handle (same fragments as observe(); children of blocks, sources and sections are not walked)
